@@ -109,18 +109,12 @@ class MinFlowDecompCycles(walkmodel.AbstractWalkModelDiGraph):
             if G.number_of_nodes() == 0:
                 utils.logger.error(f"{__name__}: The input graph G has no nodes. Please provide a graph with at least one node.")
                 raise ValueError(f"The input graph G has no nodes. Please provide a graph with at least one node.")
-            if len(additional_starts) + len(additional_ends) == 0:
-                self.G_internal = nedg.NodeExpandedDiGraph(
-                    G=G, 
-                    node_flow_attr=flow_attr
-                )
-            else:
-                self.G_internal = nedg.NodeExpandedDiGraph(
-                    G=G, 
-                    node_flow_attr=flow_attr,
-                    additional_starts=additional_starts,
-                    additional_ends=additional_ends,
-                )
+            # Additional starts/ends are handled by the k-model (which receives their expanded versions below),
+            # so the plain node expansion is needed here
+            self.G_internal = nedg.NodeExpandedDiGraph(
+                G=G, 
+                node_flow_attr=flow_attr
+            )
             subset_constraints_internal = self.G_internal.get_expanded_subpath_constraints(subset_constraints)
             additional_starts_internal = self.G_internal.get_expanded_additional_starts(additional_starts)
             additional_ends_internal = self.G_internal.get_expanded_additional_ends(additional_ends)
@@ -280,6 +274,11 @@ class MinFlowDecompCycles(walkmodel.AbstractWalkModelDiGraph):
     def _get_lowerbound_with_min_gen_set(self) -> int:
 
         min_gen_set_start_time = time.perf_counter()
+        # The total flow is derived from the in/out imbalance of the nodes, which is meaningful only if every edge
+        # carries a trusted flow value; with ignored edges (or edges without flow value, e.g. for node-weighted input)
+        # this lower bound is not available
+        if len(self.edges_to_ignore) > 0 or any(self.flow_attr not in self.G.edges[e] for e in self.G.edges()):
+            return None
         all_weights = list(set({self.G.edges[e][self.flow_attr] for e in self.G.edges() if self.flow_attr in self.G.edges[e]}))
         # Get the source_flow as the sum of the out_flow - in_flow, for all nodes
         source_flow = self._get_source_flow()
@@ -411,12 +410,13 @@ class MinFlowDecompCycles(walkmodel.AbstractWalkModelDiGraph):
         if self._lowerbound_k != None:
             return self._lowerbound_k
         
-        stDiGraph = stdigraph.stDiGraph(self.G)
+        stDiGraph = stdigraph.stDiGraph(self.G, additional_starts=self.additional_starts, additional_ends=self.additional_ends)
 
         # Checking if we have been given some lowerbound to start with
         self._lowerbound_k = self.optimization_options.get("lowerbound_k", 1)
 
-        self._lowerbound_k = max(self._lowerbound_k, stDiGraph.get_width(edges_to_ignore=self.edges_to_ignore))
+        # As in the k-models, the global source/sink edges are passed together with the ignored edges
+        self._lowerbound_k = max(self._lowerbound_k, stDiGraph.get_width(edges_to_ignore=list(self.edges_to_ignore) + list(stDiGraph.source_sink_edges)))
 
         if self.optimization_options.get("use_min_gen_set_lowerbound", MinFlowDecompCycles.use_min_gen_set_lowerbound):  
             mingenset_lowerbound = self._get_lowerbound_with_min_gen_set()
